@@ -13,13 +13,13 @@ CHECKS = {
          "The engine game and an oracle game are advanced together for up to 398 plies under nine move policies; placement, side, rights, en-passant file, king cache and exported text are compared at every ply.",
          "Trusted: " + ORACLE + "; the cfg-guarded verif_access re-exports only expose existing types."),
  "C04": ("exploration", "reference-model monitor: hash vs recomputation from zobrist_bytes.bin with the published layout pinned in the oracle", "7/C04",
-         "Exact per-position comparison with an independent recomputation from the key file, plus explicit route checks (repeat visits by different move orders, text re-import) and the pinned start-position value.",
+         "Exact per-position comparison with an independent recomputation from the key file (for the engine's view of the state and for the position the rules prescribe), plus explicit route checks (repeat visits by different move orders, text re-import) and the pinned start-position value.",
          "Trusted: the pinned key-file layout in oracle/src/zobrist.rs; " + ORACLE),
  "C05": ("exploration", "collision monitor over the merged (hash, position key) log of all workers + single-feature variation hashing", "7/C05",
          "All positions visited by all workers are merged and checked for two different positions sharing a hash; for a sample every single-feature variation (side, each right, ep file, each square's content) must hash differently from the position and from every other variation.",
          "Position identity is a 64-bit FNV key of (board, side, rights, ep); a key collision could hide a hash collision (probability ~1e-7 at 10^6 positions)."),
  "C11": ("exploration", "reference-model monitor: exported FEN vs strict grammar, vs oracle rendering, vs board read through the hook; re-import compared field by field", "7/C11",
-         "Every distinct visited position's exported text is parsed by a strict independent grammar, compared with the position and re-imported; coverage minima require all 16 castling combinations, all 16 (side, file) en-passant cases, promoted pieces, empty ranks.",
+         "Every distinct visited position's exported text is parsed by a strict independent grammar, compared with the position and re-imported (in-process, and through `show` / `position fen <exported text>` on the real binary, half of the positions with the mover in check); coverage minima require all 16 castling combinations, all 16 (side, file) en-passant cases, promoted pieces, empty ranks.",
          "Trusted: " + ORACLE),
  "C12": ("exploration", "reference-model monitor for move text (in-process round trip) + trace checker over `position ... moves` / `show` transcripts of the real binary for move-shaped strings", "7/C12",
          "In-process: every legal move's text is compared with the oracle's and read back. Command level: the real binary is fed every move-shaped string that the parser maps to a move (quick) / every square pair and suffix (thorough) for positions with en-passant, castling and promotion features and the displayed state is compared with the oracle's successor.",
@@ -28,7 +28,7 @@ CHECKS = {
          "Score compared at every position of games that mix text import, push_history and push/pop and cross the endgame threshold; a mirrored game must score exactly the negation; copies of the game (what the search works on) are probed with move generation and play/take-back of every king move.",
          "Trusted: table orientation pinned in the oracle; table values are read from /repo/src/chess/scores.rs as data."),
  "C20": ("exploration", "reference-model monitor: Display/`show` output parsed (hash, FEN, diagram, move record) and compared with the oracle's account of the game", "7/C20",
-         "Every game's display and move record are parsed and compared token by token with what was played (in-process and through `position (fen|startpos) [moves]; show` on the binary, also right after another `position` command); coverage minima require all four promotion pieces with and without capture, both castlings and en passant.",
+         "Every game's display and move record are parsed and compared token by token with what was played (in-process and through `position (fen|startpos) [moves]; show` on the binary, also right after another `position` command and after a refused move at the end of the list); coverage minima require all four promotion pieces with and without capture, both castlings and en passant.",
          "Trusted: " + ORACLE + "; token grammar of the move record as described in DESIGN.md."),
 }
 
@@ -37,14 +37,14 @@ CHECKS.update({
          "Every observable the property names (FEN, hash, score, king squares, length, both move lists, board) is compared before and after get_moves/fen/Display, after push+pop of every move of both lists including unchecked king captures, and at every unwind level of nested walks of depth 2-6, on text-imported endgames and on positions inside games that cross the endgame threshold.",
          "No oracle beyond equality of the engine's own observables; positions outside the generated set are not covered."),
  "C06": ("exploration", "history monitor: search histories over one shared table, announced move checked against the oracle; UCI transcripts of the real binary", "7/C06",
-         "Thousands of driver calls inside histories that share one transposition table (same game in playing order, siblings, text twins differing only in rights/ep, state twins with neighbouring rights codes with and without an en-passant square, shallower-after-deeper limits, stops, resets); every announced move is checked for legality by the independent oracle, in-process and through `bestmove` lines of the binary.",
+         "Thousands of driver calls inside histories that share one transposition table (same game in playing order, siblings, text twins differing only in rights/ep, state twins with neighbouring rights codes with and without an en-passant square, castling set-ups with the other king beside the castling path, shallower-after-deeper limits, stops, resets); every announced move is checked for legality by the independent oracle, in-process and through `bestmove` lines of the binary.",
          "Trusted: " + ORACLE + ". A hash collision between two generated roots would be needed for a wrong cached move; not forced here."),
  "C07": ("fault_enumeration", "fault injection: the stop flag is flipped by a cfg hook at every node-entry poll index of small searches (stratified beyond), result checked against the oracle; UCI go+stop with the search-thread start delayed", "7/C07",
-         "For searches of depth 1-3 whose undisturbed run has at most ~1200 (quick) / 4000 (thorough) polls EVERY stop point is tried; larger searches use a ladder of stop points. After every fifth stop point all positions one move further are searched on the table the interrupted search left behind. The verdict is on poll counts (logical time), never wall-clock.",
+         "For searches of depth 1-3 whose undisturbed run has at most ~1200 (quick) / 4000 (thorough) polls EVERY stop point is tried; larger searches use a ladder of stop points. After every fifth stop point all positions one move further are searched on the table the interrupted search left behind. Through the binary: go+stop with the thread start delayed, tiny move times, and whole exchanges written in one piece (position A; go; stop; position B; go) whose k-th bestmove must be legal in the k-th position. The verdict is on poll counts (logical time), never wall-clock.",
          "The flag is only read at the node-entry poll (hook sits directly before it). Trusted: " + ORACLE),
  "C08": ("exploration", "gauged runs: iteration/poll gauges decide 'never deeper than N' logically; all (M,N) limit pairs on one table; tiny endings to depth 255 and unlimited under a poll budget; release and debug-assertions builds", "7/C08",
          "All ordered pairs (search to M, then limit N) on one table for random roots; limits up to 255 and unlimited runs on tiny endings where depth really gets past 33; a node expanded in an iteration deeper than N is the violation and ends the run, so non-termination is decided without a wall clock. Tiny endings are also searched at the end of a 398-ply game record with the state-stack gauge armed, and `go depth N` combined with a time budget is checked on the real binary through its `info depth` lines.",
-         "'As long as it is left running' is restated as: until it ends by itself or a poll budget (2.5M quick / 40M thorough polls) is reached."),
+         "UCI level also covers tables that were just reset by `ucinewgame` followed by roots without legal move or with a single reply. 'As long as it is left running' is restated as: until it ends by itself or a poll budget (2.5M quick / 40M thorough polls) is reached."),
  "C09": ("exploration", "reference-model monitor: table-less engine search (table wiped at every poll by a cfg hook) vs exhaustive unpruned negamax on the same generator/evaluation", "7/C09",
          "Thousands of (root, depth 1-4, fresh/pre-filled history) cases; the reference has no windows, ordering or table. Scores compared after clamping the mate range; skipped cases are counted by reason.",
          "The reference shares generator and evaluation with the engine by construction; cases over the node budget are not judged."),
@@ -52,13 +52,13 @@ CHECKS.update({
          "Positions from check-biased games, K+Q/K+R v K families, minor-piece endings and every K + pawn-on-the-seventh v K position (mates by promotion, some by under-promotion only) are classified by an independent solver; mate-in-one roots are searched at limits 3-6 and unlimited, mate-in-two roots at 5-7 and unlimited (the move must keep a forced mate), dead roots at 1-5.",
          "'Keeps the forced mate' is decided by a bounded solver (mate within four further moves, 3M nodes); undecided cases are counted, not judged. Trusted: " + ORACLE),
  "C13": ("exploration", "trace checker over `go` transcripts of the real binary: the printed budget decides; wall-clock only as reproduced tiebreak", "7/C13",
-         "Thousands of clock/increment/movetime combinations incl. the whole underflow band and boundary values, both sides to move, release and debug-assertions binaries, every fourth case with another standard `go` parameter (ponder, searchmoves, movestogo, nodes, mate) around the limits; the `info time` value must be a finite non-negative integer not above the time available; short budgets are also waited for.",
+         "Thousands of clock/increment/movetime combinations incl. the whole underflow band and boundary values, both sides to move, release and debug-assertions binaries, every fourth case with another standard `go` parameter (ponder, searchmoves, movestogo, nodes, mate) around the limits, every tenth on a nine-queens-a-side position whose first iterations outlast the budget; the `info time` value must be a finite non-negative integer not above the time available; short budgets are also waited for.",
          "`go` with clocks but no increments computes no budget (outside the quantifier)."),
  "C14": ("fault_enumeration", "trace checker: sequential session model replayed over the stdin/stdout history of the real binary; delays injected at five named schedule points (cfg hooks); lost stops decided on hook event order", "7/C14",
          "Directed scenarios for every ordering named in the property x delays {0,2,20,150} ms, plus random scripts with the GUI pattern (next position+go the moment bestmove is received), 16 sessions in parallel; exactly-once bestmove, whole-line protocol tokens, readyok during search, no panic, exit 0. The evidence lists the distinct orders in which the three threads were actually observed to pass the hook points (44 in a quick run).",
          "Interleavings explored = those reachable by stretching the five named points (+ OS noise); absence of output counts only when reproduced in an isolated re-run."),
  "C15": ("exploration", "debug-assertions (unsafe-precondition) build + capacity gauges (cfg hooks abort before an unchecked push at capacity) under boundary-seeking workloads; Miri on small workloads and an AddressSanitizer build of the binary under UCI sessions in thorough", "7/C15",
-         "Hill-climb to maximal mobility over reader-accepted positions, 398-ply games followed by searches to the depth cap, the real self-play loop with deterministic per-move poll budgets and on the binary, every accepted mutant FEN, over-long game records (up to 1000 plies, also followed by an illegal move), long records followed by 150-260 searches without a new position, and 61k hostile move strings on the debug-assertions binary; high-water marks of both unchecked buffers are reported.",
+         "Hill-climb to maximal mobility over reader-accepted positions, 398-ply games followed by searches to the depth cap, the real self-play loop with deterministic per-move poll budgets and on the binary, every accepted mutant FEN, over-long game records (up to 1000 plies, also followed by an illegal move), long records followed by 150-260 searches without a new position or continued by 700 copies of one odd token (`0000`, `a1a1`, ...), and 61k hostile move strings on the debug-assertions binary; high-water marks of both unchecked buffers are reported.",
          "ASan/valgrind are blind to these intra-object overflows (measured); the checked build and the gauges are the detectors."),
  "C17": ("exploration", "classification monitor: mutated FEN strings classified by a strict independent grammar (must-accept / must-reject / don't-care), reader outcome compared; panics caught in worker subprocesses; command level on the real binary", "7/C17",
          "Hundreds of thousands of strings from 21 mutation operators over all fields of well-formed renderings (4-6 fields, both en-passant conventions); must-accept strings must import as exactly the described position with its legal moves, must-reject strings must be refused, nothing may crash; release and debug-assertions builds.",
